@@ -67,10 +67,24 @@ def _parse_subst(arg, where):
     return (a, b)
 
 
+WORDS = {
+    'u8': {'W': 'u8', 'BITS': '8', 'BYTES': '1', 'LOG': '3'},
+    'u16': {'W': 'u16', 'BITS': '16', 'BYTES': '2', 'LOG': '4'},
+    'u32': {'W': 'u32', 'BITS': '32', 'BYTES': '4', 'LOG': '5'},
+    'u64': {'W': 'u64', 'BITS': '64', 'BYTES': '8', 'LOG': '6'},
+    'u128': {'W': 'u128', 'BITS': '128', 'BYTES': '16', 'LOG': '7'},
+    'usize': {'W': 'usize', 'BITS': '64', 'BYTES': '8', 'LOG': '6'},
+}
+
+
 class Unit:
     def __init__(self, name):
+        """name is `<file>` or `<file>@<word type>`: the second form instantiates the template
+        parameters {W}, {BITS}, {BYTES} of the sidecar (rule R1)."""
         self.name = name
-        self.path = os.path.join(CONTRACTS, name + '.vc')
+        base, _, inst = name.partition('@')
+        self.params = dict(WORDS[inst]) if inst else {}
+        self.path = os.path.join(CONTRACTS, base + '.vc')
         self.slice_recv = []
         self.substs = []
         self.elements = []    # ('text', Line) | ('fn', FnSpec) | ('item', dict)
@@ -84,7 +98,10 @@ class Unit:
         if not os.path.exists(path):
             raise ExtractError('missing contract file ' + path)
         rel = os.path.relpath(path, os.path.dirname(CONTRACTS))
-        lines = open(path).read().split('\n')
+        txt = open(path).read()
+        for k, v in self.params.items():
+            txt = txt.replace('{' + k + '}', v)
+        lines = txt.split('\n')
         cur = None          # FnSpec being filled
         sink = None         # list to which plain lines go while inside a fn directive
         for n, raw in enumerate(lines, 1):
